@@ -679,4 +679,189 @@ example : (run { timeoutPending := true, toDelete := [0] } demoOps).2 =
 example : (run { timeoutPending := true, toDelete := [] } [.whenConnected, .out demoLine, .timeout, .whenConnected, .progress 0 100, .exited none]).2 =
     [.request 0, .attempt 0, .term, .fired 0 false, .request 1, .fired 1 false] := by decide +kernel
 
+/-! ### a subscribed connection is one whose protocol bootstrap was acknowledged -/
+
+/-- whoever was subscribed in `s'` was subscribed in `s` already -/
+def SubMono (s s' : St) : Prop :=
+  ∀ (k : Nat) (c' : Conn), s'.conns[k]? = some c' → c'.subscribed = true → ∃ c, s.conns[k]? = some c ∧ c.subscribed = true
+
+theorem SubMono.refl (s : St) : SubMono s s := fun _ c h hs => ⟨c, h, hs⟩
+
+theorem SubMono.trans {a b c : St} (h1 : SubMono a b) (h2 : SubMono b c) : SubMono a c := by
+  intro k c' hc hs
+  obtain ⟨cb, hb, hsb⟩ := h2 k c' hc hs
+  exact h1 k cb hb hsb
+
+theorem SubMono.of_conns {s s' : St} (e : s'.conns = s.conns) : SubMono s s' := by
+  intro k c h hs; rw [e] at h; exact ⟨c, h, hs⟩
+
+/-- replacing connection `k` by a record that is subscribed only if the old one was -/
+theorem SubMono.setConn (s : St) (k : Nat) (c : Conn) (h : c.subscribed = true → (s.conns.getD k {}).subscribed = true) :
+    SubMono s (setConn s k c) := by
+  intro k' c' hk' hs
+  unfold TxV.Launch.setConn at hk'
+  simp only [List.getElem?_set] at hk'
+  by_cases e : k = k'
+  · subst e
+    split at hk'
+    · split at hk'
+      · rename_i hlt
+        cases hk'
+        have := h hs
+        unfold List.getD at this
+        rw [List.getElem?_eq_getElem hlt] at this ⊢
+        exact ⟨_, rfl, by simpa using this⟩
+      · cases hk'
+    · exact ⟨c', hk', hs⟩
+  · simp only [e, if_false] at hk'
+    exact ⟨c', hk', hs⟩
+
+theorem enqueue_sub (s : St) (k : Nat) (it : Item) : SubMono s (enqueue s k it).1 :=
+  SubMono.setConn s k _ (fun h => h)
+
+theorem connFailed_sub (s : St) (k : Nat) : SubMono s (connFailed s k) := by
+  have h1 : SubMono s (setConn s k { (s.conns.getD k {}) with stage := .failed }) := SubMono.setConn s k _ (fun h => h)
+  exact h1.trans (SubMono.of_conns (s' := connFailed s k) rfl)
+
+theorem launchTail_sub (s : St) : SubMono s (launchTail s).1 := by
+  unfold launchTail
+  split
+  · split
+    · simp only
+      split
+      · exact (SubMono.of_conns (s := s) (s' := { s with attachStarted := true }) rfl).trans (SubMono.setConn _ _ _ (fun h => h))
+      · exact (SubMono.of_conns (s := s) (s' := { s with attachStarted := true }) rfl).trans (enqueue_sub _ _ _)
+    · exact SubMono.refl s
+  · exact SubMono.refl s
+
+theorem notify_conns (s : St) (ok : Bool) : (notify s ok).1.conns = s.conns := by
+  unfold notify; cases s.listeners <;> rfl
+
+/-- everything a queued command's continuation does, except the one that follows an acknowledged bootstrap -/
+theorem answered_sub (s : St) (k : Nat) (it : Item) (ok : Bool) (h : ¬ (it = .boot ∧ ok = true)) : SubMono s (answered s k it ok).1 := by
+  unfold answered
+  cases it with
+  | boot =>
+    have : ok = false := by cases ok <;> simp_all
+    subst this
+    exact connFailed_sub s k
+  | events => simp only; split; exact enqueue_sub s k _; exact connFailed_sub s k
+  | take => simp only; split; exact enqueue_sub s k _; exact connFailed_sub s k
+  | reset =>
+    simp only
+    split
+    · split
+      · exact (SubMono.of_conns (s := s) (s' := { s with attachStarted := true }) rfl).trans (enqueue_sub _ _ _)
+      · exact SubMono.setConn s k _ (fun h => h)
+    · exact connFailed_sub s k
+  | attachSetup => simp only; split; exact SubMono.setConn s k _ (fun h => h); exact connFailed_sub s k
+  | attachLaunch => exact SubMono.refl s
+
+/-- **The subscription begins with the acknowledged protocol bootstrap.** A connection that is subscribed after an
+input either was subscribed before, or the input is the acknowledgement of that connection's protocol bootstrap
+(PROTOCOLINFO … authentication … the bootstrap queries — C04). Together with `C19_success_needs_100`: the 100 %
+that lets a launch succeed was reported over a control connection that had authenticated and bootstrapped. -/
+theorem C19_subscription_begins_with_bootstrap (s : St) (i : In) (k : Nat) (c' : Conn)
+    (h' : (step s i).1.conns[k]? = some c') (hs : c'.subscribed = true) :
+    (∃ c, s.conns[k]? = some c ∧ c.subscribed = true) ∨
+    (i = .ack k true ∧ ∃ c, s.conns[k]? = some c ∧ c.queue.head? = some .boot) := by
+  have mono : SubMono s (step s i).1 → (∃ c, s.conns[k]? = some c ∧ c.subscribed = true) ∨
+      (i = .ack k true ∧ ∃ c, s.conns[k]? = some c ∧ c.queue.head? = some .boot) := fun m => Or.inl (m k c' h' hs)
+  cases i with
+  | out c =>
+    apply mono
+    simp only [TxV.Launch.step]
+    split
+    · intro k' c'' hk' hs'
+      have : (s.conns ++ [({} : Conn)])[k']? = some c'' := hk'
+      by_cases hlt : k' < s.conns.length
+      · rw [List.getElem?_append_left hlt] at this; exact ⟨c'', this, hs'⟩
+      · by_cases heq : k' = s.conns.length
+        · subst heq; simp at this; subst this; cases hs'
+        · have : (s.conns ++ [({} : Conn)])[k']? = none := List.getElem?_eq_none (by simp; omega)
+          rw [this] at hk'; cases hk'
+    · exact SubMono.of_conns rfl
+  | err c =>
+    apply mono
+    simp only [TxV.Launch.step]
+    split <;> exact SubMono.refl s
+  | connected k2 ok =>
+    apply mono
+    simp only [TxV.Launch.step]
+    cases hc : s.conns[k2]? with
+    | none => exact SubMono.refl s
+    | some c =>
+      simp only
+      split
+      · exact SubMono.refl s
+      · split
+        · refine (SubMono.setConn s k2 _ ?_).trans (SubMono.of_conns rfl)
+          intro h
+          unfold List.getD; rw [hc]; exact h
+        · exact connFailed_sub s k2
+  | ack k2 ok =>
+    simp only [TxV.Launch.step] at h'
+    cases hc : s.conns[k2]? with
+    | none => rw [hc] at h'; exact Or.inl ⟨c', h', hs⟩
+    | some c =>
+      rw [hc] at h'
+      simp only at h'
+      cases hq : c.queue with
+      | nil => rw [hq] at h'; exact Or.inl ⟨c', h', hs⟩
+      | cons it rest =>
+        rw [hq] at h'
+        simp only at h'
+        by_cases hboot : it = .boot ∧ ok = true
+        · by_cases hk : k2 = k
+          · subst hk
+            right
+            obtain ⟨rfl, rfl⟩ := hboot
+            exact ⟨rfl, c, hc, by rw [hq]; rfl⟩
+          · -- another connection's bootstrap: connection k is untouched by it
+            left
+            obtain ⟨rfl, rfl⟩ := hboot
+            have hset : ∀ (t : St) (c2 : Conn), (setConn t k2 c2).conns[k]? = t.conns[k]? := by
+              intro t c2; unfold TxV.Launch.setConn; simp [List.getElem?_set, hk]
+            have henq : ∀ (t : St) (it : Item), (enqueue t k2 it).1.conns[k]? = t.conns[k]? := by
+              intro t it; unfold enqueue; exact hset _ _
+            unfold answered at h'
+            simp only [if_true] at h'
+            split at h'
+            · rw [henq, henq, hset, hset] at h'; exact ⟨c', h', hs⟩
+            · rw [henq, hset, hset] at h'; exact ⟨c', h', hs⟩
+        · have m1 : SubMono s (setConn s k2 { c with queue := rest }) := by
+            refine SubMono.setConn s k2 _ ?_
+            intro h; unfold List.getD; rw [hc]; exact h
+          have m2 := answered_sub (setConn s k2 { c with queue := rest }) k2 it ok hboot
+          exact Or.inl ((m1.trans m2) k c' h' hs)
+  | progress k2 n =>
+    apply mono
+    simp only [TxV.Launch.step]
+    split
+    · split
+      · exact SubMono.refl s
+      · split
+        · have e1 : (notify { s with timeoutPending := false } true).1.conns = s.conns := notify_conns _ _
+          split
+          · exact (SubMono.of_conns e1).trans (launchTail_sub _)
+          · exact SubMono.of_conns e1
+        · exact SubMono.refl s
+    · exact SubMono.refl s
+  | timeout =>
+    apply mono
+    simp only [TxV.Launch.step]
+    split
+    · exact SubMono.refl s
+    · exact SubMono.of_conns (notify_conns _ _)
+  | exited code =>
+    apply mono
+    simp only [TxV.Launch.step]
+    split
+    · exact SubMono.refl s
+    · exact SubMono.of_conns (notify_conns _ _)
+  | whenConnected =>
+    apply mono
+    simp only [TxV.Launch.step]
+    split <;> exact SubMono.of_conns rfl
+
 end TxV.Props.C19
